@@ -39,6 +39,8 @@ import (
 const (
 	nKeys   = 8
 	maxHops = 16
+	// the harness's replacement for caddy.DefaultAdminListen (same constant in Driver.lean)
+	defaultLocalListen = "unix/c13-default.sock"
 )
 
 // ---------------------------------------------------------------- probe modules
@@ -116,7 +118,11 @@ func (p *prop) init() {
 	os.Setenv("XDG_CONFIG_HOME", dir+"/config")
 	os.Setenv("HOME", dir)
 	// a config without an "admin" section must never open localhost:2019 from inside the harness
-	caddy.DefaultAdminListen = "unix/" + dir + "/admin.sock"
+	// (relative unix socket paths of the protocol live in the private directory)
+	if err := os.Chdir(dir); err != nil {
+		panic(err)
+	}
+	caddy.DefaultAdminListen = defaultLocalListen
 	caddy.ConfigAutosavePath = dir + "/autosave.json"
 	caddy.RegisterModule(probeApp{})
 	caddy.RegisterModule(probeRouter{})
@@ -203,22 +209,22 @@ type access struct {
 }
 
 type acase struct {
-	remote                 bool
-	listen, network, ahost string
-	port                   uint64
-	ipc                    string
-	originsNil             bool
-	origins                []urlT
-	eo                     bool
-	aclNil                 bool
-	acl                    []access
-	pats                   []string
-	idxKeys, idxVals       []string
-	method, host, path     string
-	upg                    []string
-	origin, referer        urlT
-	tlsNil                 bool
-	chains                 [][]int
+	remote             bool
+	load               bool // drive the case through caddy.Load instead of the hook
+	listen             string
+	ipc                string
+	originsNil         bool
+	origins            []urlT
+	eo                 bool
+	aclNil             bool
+	acl                []access
+	pats               []string
+	idxKeys, idxVals   []string
+	method, host, path string
+	upg                []string
+	origin, referer    urlT
+	tlsNil             bool
+	chains             [][]int
 }
 
 func hexList(xs []string, sep string) string {
@@ -263,13 +269,17 @@ func ints(xs []int) string {
 
 func (c *acase) line() string {
 	var f []string
-	f = append(f, "req")
+	if c.load {
+		f = append(f, "load")
+	} else {
+		f = append(f, "req")
+	}
 	if c.remote {
 		f = append(f, "R")
 	} else {
 		f = append(f, "L")
 	}
-	f = append(f, fmt.Sprintf("%s:%s:%s:%d:%s", core.Hex(c.listen), core.Hex(c.network), core.Hex(c.ahost), c.port, c.ipc))
+	f = append(f, core.Hex(c.listen)+":"+c.ipc)
 	switch {
 	case c.originsNil:
 		f = append(f, "~")
@@ -410,10 +420,10 @@ func allLt(xs []int, n int) bool {
 
 func parseCase(line string) (*acase, bool) {
 	f := strings.Fields(line)
-	if len(f) != 15 || f[0] != "req" {
+	if len(f) != 15 || f[0] != "req" && f[0] != "load" {
 		return nil, false
 	}
-	c := &acase{}
+	c := &acase{load: f[0] == "load"}
 	switch f[1] {
 	case "L":
 	case "R":
@@ -422,18 +432,15 @@ func parseCase(line string) (*acase, bool) {
 		return nil, false
 	}
 	a := strings.Split(f[2], ":")
-	if len(a) != 5 {
+	if len(a) != 2 {
 		return nil, false
 	}
-	var e1, e2, e3 error
+	var e1 error
 	c.listen, e1 = core.UnHex(a[0])
-	c.network, e2 = core.UnHex(a[1])
-	c.ahost, e3 = core.UnHex(a[2])
-	pn, okp := parseNat(a[3])
-	if e1 != nil || e2 != nil || e3 != nil || !okp || len(a[4]) != 1 || !strings.Contains("nulo", a[4]) {
+	if e1 != nil || len(a[1]) != 1 || !strings.Contains("nulo", a[1]) {
 		return nil, false
 	}
-	c.port, c.ipc = uint64(pn), a[4]
+	c.ipc = a[1]
 	switch f[3] {
 	case "~":
 		c.originsNil = true
@@ -652,6 +659,11 @@ func alphaOnly(s string) bool {
 
 // inDomain returns "" when the case may be run, else the answer to print.
 func (c *acase) inDomain() string {
+	for i := 0; i < len(c.listen); i++ {
+		if b := c.listen[i]; b < 32 || b > 126 || b == '{' || b == '}' {
+			return "bad-op" // ToLower/TrimSpace/the replacer are only modelled on brace-free printable ASCII
+		}
+	}
 	for _, u := range c.upg {
 		if !isASCII(u) {
 			return "bad-op" // strings.ToLower is only modelled on ASCII
@@ -713,12 +725,8 @@ func ipClass(host string) string {
 }
 
 // tablesOK checks every table of the case against the real parsers.
-func (c *acase) tablesOK() (caddy.NetworkAddress, bool) {
-	addr, err := caddy.VerifParseAdminListenAddr(c.listen, c.remote)
-	if err != nil {
-		return addr, false
-	}
-	if addr.Network != c.network || addr.Host != c.ahost || uint64(addr.StartPort) != c.port || ipClass(addr.Host) != c.ipc {
+func (c *acase) tablesOK(addr caddy.NetworkAddress) (caddy.NetworkAddress, bool) {
+	if ipClass(addr.Host) != c.ipc {
 		return addr, false
 	}
 	for _, o := range c.origins {
@@ -735,7 +743,8 @@ func (c *acase) tablesOK() (caddy.NetworkAddress, bool) {
 // ---------------------------------------------------------------- running one case on the real code
 
 type obs struct {
-	final   string // as printed
+	extra   []core.Failure // failures noticed while setting the case up (load op)
+	final   string         // as printed
 	refused bool
 	status  int
 	pattern string
@@ -772,6 +781,129 @@ func classifyRefusal(status int, body []byte) string {
 	return ""
 }
 
+// inDomainAddr: the domain conditions that need the parsed address (mirrors Driver.lean)
+func (c *acase) inDomainAddr(addr caddy.NetworkAddress) string {
+	if strings.HasPrefix(addr.Network, "unix") {
+		if i := strings.Index(addr.Host, "|"); i >= 0 && len(addr.Host)-i-1 > 6 {
+			return "bad-op" // permission bits are modelled up to 6 octal digits
+		}
+	}
+	if c.load {
+		tcpOK := addr.Network == "tcp" && addr.StartPort == 0 && contains([]string{"localhost", "127.0.0.1", "127.0.0.2", "", "0.0.0.0"}, addr.Host)
+		unixOK := addr.Network == "unix" && strings.HasPrefix(addr.Host, "c13-load")
+		if !tcpOK && !unixOK {
+			return "bad-op" // not bindable from inside the harness
+		}
+		if c.remote && c.aclNil {
+			return "bad-op" // no remote endpoint is started without admin.remote
+		}
+	}
+	return ""
+}
+
+// configJSON renders the case as the JSON config a user would write.
+func (p *prop) configJSON(c *acase) []byte {
+	admin := map[string]any{"config": map[string]any{"persist": false}}
+	if !c.originsNil {
+		os := []string{}
+		for _, u := range c.origins {
+			os = append(os, u.raw)
+		}
+		admin["origins"] = os
+	}
+	if c.eo {
+		admin["enforce_origin"] = true
+	}
+	if !c.remote {
+		if c.listen != "" {
+			admin["listen"] = c.listen
+		}
+	} else {
+		loadSeq++
+		admin["listen"] = fmt.Sprintf("unix/c13-local-%d.sock", loadSeq)
+		admin["identity"] = map[string]any{"issuers": []any{}}
+	}
+	if !c.aclNil {
+		acl := []any{}
+		for _, a := range c.acl {
+			aa := map[string]any{}
+			keys := []string{}
+			for _, k := range a.keys {
+				keys = append(keys, p.b64[k])
+			}
+			aa["public_keys"] = keys
+			if len(a.perms) > 0 {
+				perms := []any{}
+				for _, pm := range a.perms {
+					ap := map[string]any{}
+					if !pm.methodsNil {
+						ap["methods"] = append([]string{}, pm.methods...)
+					}
+					if !pm.pathsNil {
+						ap["paths"] = append([]string{}, pm.paths...)
+					}
+					perms = append(perms, ap)
+				}
+				aa["permissions"] = perms
+			}
+			acl = append(acl, aa)
+		}
+		remote := map[string]any{"access_control": acl}
+		if c.remote && c.listen != "" {
+			remote["listen"] = c.listen
+		}
+		if c.remote {
+			admin["remote"] = remote
+		}
+	}
+	var base map[string]any
+	json.Unmarshal([]byte(baseCfg), &base)
+	base["admin"] = admin
+	b, err := json.Marshal(base)
+	if err != nil {
+		panic(err)
+	}
+	return b
+}
+
+var loadSeq int
+
+// execLoad drives the case through the real start-up path: the JSON config is decoded and run by
+// caddy.Load, replaceLocalAdminServer / replaceRemoteAdminServer build the handler (real listen
+// address parsing, real public-key extraction), and the request is sent to the handler installed in
+// the running server. Returns the config as read back after the load (the state the request sees).
+func (p *prop) execLoad(c *acase) (o obs, before string) {
+	curPats = c.pats
+	if err := caddy.Load(p.configJSON(c), true); err != nil {
+		panic("load op: caddy.Load failed: " + err.Error())
+	}
+	h, tlsCfg := caddy.VerifRunningAdminHandler(c.remote)
+	if h == nil {
+		panic("load op: no running admin server")
+	}
+	before = p.readConfig()
+	o = p.serve(c, h)
+	if c.remote {
+		if tlsCfg == nil || tlsCfg.ClientAuth != tls.RequireAndVerifyClientCert {
+			o.extra = append(o.extra, core.Failure{Class: "remote-tls-not-mutual",
+				What: "the remote admin server does not require and verify a client certificate"})
+		} else {
+			want := map[string]bool{}
+			for _, a := range c.acl {
+				for _, k := range a.keys {
+					want[string(p.certs[k].RawSubject)] = true
+				}
+			}
+			//nolint:staticcheck // Subjects is fine for a pool built from explicit certificates
+			if got := len(tlsCfg.ClientCAs.Subjects()); got != len(want) {
+				o.extra = append(o.extra, core.Failure{Class: "remote-client-ca-pool-differs",
+					What: fmt.Sprintf("client CA pool has %d subjects, the access controls list %d distinct certificates", got, len(want))})
+			}
+		}
+	}
+	return o, before
+}
+
 func (p *prop) exec(c *acase, addr caddy.NetworkAddress) (o obs) {
 	cfg := &caddy.AdminConfig{Listen: c.listen, EnforceOrigin: c.eo}
 	if !c.originsNil {
@@ -805,6 +937,11 @@ func (p *prop) exec(c *acase, addr caddy.NetworkAddress) (o obs) {
 	if err != nil {
 		panic(err)
 	}
+	return p.serve(c, h)
+}
+
+// serve sends the case's request to h and classifies what happened.
+func (p *prop) serve(c *acase, h http.Handler) (o obs) {
 	idx := map[string]string{}
 	for i, k := range c.idxKeys {
 		idx[k] = c.idxVals[i]
@@ -878,21 +1015,79 @@ func (p *prop) exec(c *acase, addr caddy.NetworkAddress) (o obs) {
 // ---------------------------------------------------------------- the property, restated over Go values (oracle)
 
 type spec struct {
+	known        bool     // the listen string is of the plain documented form
 	specific     bool     // local endpoint bound to a specific address
 	allowedHosts []string // hosts of the allowed origins
 	allowed      [][2]string
 }
 
-func specOf(c *acase, addr caddy.NetworkAddress) spec {
+// specListen reads a WELL-FORMED listen string the way the documentation describes it
+// ("network/host:port", network optional, IPv6 hosts in brackets) — on purpose not via caddy's
+// parser, so that a change there cannot move the oracle along with the code. ok=false: the
+// string is not of the plain documented form and the oracle makes no Host claim for it.
+func specListen(listen string, remote bool) (network, host, port string, ok bool) {
+	if listen == "" {
+		if remote {
+			listen = ":2021"
+		} else {
+			listen = defaultLocalListen
+		}
+	}
+	network = "tcp"
+	if i := strings.Index(listen, "/"); i >= 0 {
+		if n := strings.ToLower(strings.TrimSpace(listen[:i])); n != "" {
+			network = n
+		}
+		listen = listen[i+1:]
+	}
+	if strings.HasPrefix(network, "unix") || strings.HasPrefix(network, "fd") {
+		return network, listen, "0", true
+	}
+	switch {
+	case strings.HasPrefix(listen, "["):
+		j := strings.Index(listen, "]")
+		if j < 0 {
+			return
+		}
+		host = listen[1:j]
+		switch rest := listen[j+1:]; {
+		case rest == "":
+		case rest[0] == ':':
+			port = rest[1:]
+		default:
+			return
+		}
+	case strings.Count(listen, ":") == 1:
+		i := strings.Index(listen, ":")
+		host, port = listen[:i], listen[i+1:]
+	default: // no port: a name, an IPv4 address or a bare IPv6 address
+		host = listen
+	}
+	if strings.ContainsAny(host, "[]/ ") {
+		return
+	}
+	if port == "" {
+		port = "0"
+	}
+	n, err := strconv.ParseUint(port, 10, 16)
+	if err != nil {
+		return
+	}
+	return network, host, strconv.FormatUint(n, 10), true
+}
+
+func specOf(c *acase) spec {
 	var s spec
-	unixOrFd := strings.HasPrefix(addr.Network, "unix") || strings.HasPrefix(addr.Network, "fd")
-	wild := addr.Host == ""
-	loop := addr.Host == "localhost"
-	if ip, err := netip.ParseAddr(addr.Host); err == nil {
+	network, ahost, port, okListen := specListen(c.listen, c.remote)
+	s.known = okListen
+	unixOrFd := strings.HasPrefix(network, "unix") || strings.HasPrefix(network, "fd")
+	wild := ahost == ""
+	loop := ahost == "localhost"
+	if ip, err := netip.ParseAddr(ahost); err == nil {
 		wild = wild || ip.IsUnspecified()
 		loop = loop || ip.IsLoopback()
 	}
-	s.specific = !unixOrFd && !wild
+	s.specific = okListen && !unixOrFd && !wild
 	if !c.originsNil {
 		for _, o := range c.origins {
 			if strings.Contains(o.raw, "://") {
@@ -906,13 +1101,12 @@ func specOf(c *acase, addr caddy.NetworkAddress) spec {
 			}
 		}
 	} else if !unixOrFd {
-		port := strconv.FormatUint(uint64(addr.StartPort), 10)
 		if loop {
 			for _, h := range []string{"localhost", "::1", "127.0.0.1"} {
 				s.allowed = append(s.allowed, [2]string{"", net.JoinHostPort(h, port)})
 			}
 		} else {
-			s.allowed = append(s.allowed, [2]string{"", net.JoinHostPort(addr.Host, port)})
+			s.allowed = append(s.allowed, [2]string{"", net.JoinHostPort(ahost, port)})
 		}
 	}
 	for _, a := range s.allowed {
@@ -962,7 +1156,7 @@ func authorised(c *acase, pth string) (listed, ok bool) {
 	return
 }
 
-func (p *prop) oracle(c *acase, addr caddy.NetworkAddress, o obs, stateChanged bool) (fs []core.Failure, tags []string) {
+func (p *prop) oracle(c *acase, o obs, stateChanged bool) (fs []core.Failure, tags []string) {
 	served := !o.refused && o.final != "panic"
 	touched := served || o.hits > 0 || stateChanged
 	fail := func(class, what string) {
@@ -973,7 +1167,7 @@ func (p *prop) oracle(c *acase, addr caddy.NetworkAddress, o obs, stateChanged b
 		fail("refused-but-effect", "request was answered with a refusal but a handler ran or the config changed")
 	}
 	if !c.remote {
-		s := specOf(c, addr)
+		s := specOf(c)
 		// websocket upgrades are always refused: any Upgrade value, any ASCII casing
 		ws := false
 		for _, u := range c.upg {
@@ -1019,7 +1213,7 @@ func (p *prop) oracle(c *acase, addr caddy.NetworkAddress, o obs, stateChanged b
 					}
 				}
 			}
-			if !okOrigin {
+			if !okOrigin && (s.known || !c.originsNil) {
 				tags = append(tags, "spec:foreign-origin")
 				if touched {
 					fail("origin-gate-bypassed", fmt.Sprintf("Origin/Referer %q is not an allowed origin %q, yet the request was not refused", raw, s.allowed))
@@ -1073,14 +1267,28 @@ func (p *prop) Run(line string) core.Outcome {
 	if ans := c.inDomain(); ans != "" {
 		return core.Outcome{Impl: ans, Tags: []string{ans, "trivial"}}
 	}
-	addr, ok := c.tablesOK()
+	// the listen string goes through the real parseAdminListenAddr (the model parses it itself)
+	addr, err := caddy.VerifParseAdminListenAddr(c.listen, c.remote)
+	if err != nil {
+		return core.Outcome{Impl: "listen-error", Tags: []string{"listen-error"}}
+	}
+	if ans := c.inDomainAddr(addr); ans != "" {
+		return core.Outcome{Impl: ans, Tags: []string{ans, "trivial"}}
+	}
+	addr, ok = c.tablesOK(addr)
 	if !ok {
 		return core.Outcome{Impl: "bad-table", Tags: []string{"bad-table", "trivial"}}
 	}
-	o := p.exec(c, addr)
+	before := p.base
+	var o obs
+	if c.load {
+		o, before = p.execLoad(c)
+	} else {
+		o = p.exec(c, addr)
+	}
 	after := p.readConfig()
-	stateChanged := after != p.base
-	if stateChanged {
+	stateChanged := after != before
+	if stateChanged || c.load {
 		if err := caddy.Load([]byte(baseCfg), true); err != nil {
 			panic("restoring base config: " + err.Error())
 		}
@@ -1089,7 +1297,7 @@ func (p *prop) Run(line string) core.Outcome {
 		}
 	}
 	out := core.Outcome{Impl: fmt.Sprintf("%s %s %d %d", o.final, core.Hex(o.path), o.cors, o.hits)}
-	fs, tags := p.oracle(c, addr, o, stateChanged)
+	fs, tags := p.oracle(c, o, stateChanged)
 	out.Failures = fs
 	out.Tags = append(tags, "final:"+strings.SplitN(o.final, ":", 2)[0])
 	if o.refused {
@@ -1112,6 +1320,10 @@ func (p *prop) Run(line string) core.Outcome {
 	if o.cors > 0 {
 		out.Tags = append(out.Tags, fmt.Sprintf("cors:%d", o.cors))
 	}
+	if c.load {
+		out.Tags = append(out.Tags, "via-caddy-load")
+	}
+	out.Failures = append(out.Failures, o.extra...)
 	if len(tags) == 0 && !c.remote && !c.eo && len(c.upg) == 0 {
 		out.Tags = append(out.Tags, "trivial")
 	}
